@@ -66,14 +66,14 @@ def run(ctx):
     ctx.coverage.update({
         "evaluations": total_q * len(FIELDS_OF_INTEREST) + total_inst,
         "distinct_nontrivial": nontrivial,
-        "rule": "generated corpus of type definitions (structs/enums x representations x attributes x 0..3 type parameters with defaults), compiled against /repo with derive(TS, Serialize, Deserialize); every generic definition is queried at 3 instantiations (primitive, user type, nested); model text (Model/Gen.v) compared with the real name()/inline()/inline_flattened()/decl()/decl_concrete() byte for byte; oracles on the REAL texts: decl() identical across instantiations, free parameters of the body bound by the header (Coq ftv on the model AST whose print equals the real text), and the generic declaration expanded by Coq (tsubst) at the arguments equals the real decl_concrete(); non-trivial = distinct concrete declarations of generic definitions",
+        "rule": "generated corpus of type definitions (structs/enums x representations x attributes x 0..3 type parameters with defaults), compiled against /repo with derive(TS, Serialize, Deserialize); every generic definition is queried at 3 instantiations (primitive, user type, nested); model text (Model/Gen.v) compared with the real name()/inline()/inline_flattened()/decl()/decl_concrete() byte for byte; seed definitions with #[ts(concrete(..))] on the first / last / middle / every parameter; oracles on the REAL texts: decl() identical across instantiations, name() of an instantiation = identifier applied to as many arguments as there are non-concretised parameters (equal to the real names of the arguments where those are queried too), free parameters of the body bound by the header (Coq ftv on the model AST whose print equals the real text), and the generic declaration expanded by Coq (tsubst) at the arguments equals the real decl_concrete(); non-trivial = distinct concrete declarations of generic definitions",
         "samples": samples[:6],
         "distribution": {"definitions_by_kind": kinds, "queries": total_q, "generic_definitions": total_generic,
                          "instantiations": total_inst, "seeds": seeds},
     })
     ctx.assumptions += [
         "type definitions carry parsed attributes (how attribute tokens become them is C10/C16)",
-        "const parameters, lifetimes and #[ts(concrete)] are not in the generated fragment",
+        "const parameters and lifetimes are not in the generated fragment; #[ts(concrete(P = Ty))] is handed to the model desugared (P removed, Ty substituted: tools/corpus.py desugar), the Rust side carries the real attribute",
     ]
 
 
@@ -104,6 +104,42 @@ def check_one(ctx, res, seed):
             if names is not None and m.group(2) and [n for n in names][:len(d["params"])] != [p for p, _ in d["params"]]:
                 # only a coarse check here (defaults may contain `<`); the exact statement is the text correspondence
                 pass
+    # a reference to an instantiation is the identifier applied to the names of the (non-concretised) arguments
+    def top_args(text):
+        """the top-level arguments of `Name<..>` in the real name() text; None if there is no argument list"""
+        k = text.find("<")
+        if k < 0 or not text.endswith(">"):
+            return None
+        out, depth, cur, instr = [], 0, "", False
+        for ch in text[k + 1:-1]:
+            if ch == '"':
+                instr = not instr
+            if not instr:
+                if ch in "<([{":
+                    depth += 1
+                elif ch in ">)]}":
+                    depth -= 1
+                elif ch == "," and depth == 0:
+                    out.append(cur.strip())
+                    cur = ""
+                    continue
+            cur += ch
+        return out + [cur.strip()]
+    name_of_q = {C.rust_ty(t): res["q"][i]["name"] for i, t in enumerate(qs)}
+    for i in gen_q:
+        t, d = qs[i], by[qs[i][1]]
+        nm = res["q"][i]["name"]
+        if nm.startswith("\x00") or d.get("type") or d.get("as_"):
+            continue
+        conc = {int(k) for k, _ in (d.get("concrete") or [])}
+        free = [a for k, a in enumerate(t[2]) if k not in conc]
+        ident = res["q"][i]["ident"]
+        got = top_args(nm) if free else ([] if nm == ident else None)
+        ok_shape = nm.startswith(ident) and got is not None and len(got) == len(free) and (free or nm == ident)
+        known = [name_of_q.get(C.rust_ty(a)) for a in free]
+        if not ok_shape or any(k is not None and not k.startswith("\x00") and k != g for k, g in zip(known, got or [])):
+            viol.append(dict(kind="property-violated", what="a reference to an instantiation is not the identifier applied to the names of its non-concretised arguments",
+                             type=C.rust_ty(t), name=nm, expected_arguments=len(free), names_of_arguments_known=known, definition=C.to_rust(d), seed=seed))
     # expansion of the generic declaration at the arguments == real decl_concrete (Coq does the substitution)
     terms = ["expanded %s" % C.coq_ty(qs[i]) for i in gen_q]
     flags = ["(if scoped_ok %s then [49] else [48])%%N" % C.coq_ty(qs[i]) for i in gen_q]
